@@ -21,6 +21,8 @@
 (*      = remaining, in every reachable state.                               *)
 (* A consumption state is (kind, parameters, kf, kb): kf items taken from    *)
 (* the front, kb from the back; `sched` remembers the order for replay.      *)
+(* Steps: next, next_back (double-ended kinds), and nth(k) incl. the         *)
+(* overshooting ones that drain the iterator.                                *)
 (***************************************************************************)
 EXTENDS MapOps, TLC
 
@@ -156,7 +158,17 @@ NextB ==
     /\ kb' = kb + 1 /\ sched' = Append(sched, "B")
     /\ UNCHANGED <<kind, L, p, q, total, decl, kf>>
 
-Next == NextF \/ NextB
+\* nth(k): skip k items and take the next one - Iterator::nth, also the first step of skip(k).
+\* When fewer than k+1 items remain the iterator is drained and nothing is returned; whatever an
+\* adaptor does to make nth fast, it has consumed min(k+1, Remaining) items afterwards.
+NthStr(k) == CASE k = 0 -> "N0" [] k = 1 -> "N1" [] k = 2 -> "N2" [] k = 3 -> "N3" [] k = 4 -> "N4"
+               [] k = 5 -> "N5" [] k = 6 -> "N6" [] k = 7 -> "N7" [] OTHER -> "N8"
+NextNth(k) ==
+    /\ Remaining > 0
+    /\ kf' = kf + Min2(k + 1, Remaining) /\ sched' = Append(sched, NthStr(k))
+    /\ UNCHANGED <<kind, L, p, q, total, decl, kb>>
+
+Next == NextF \/ NextB \/ \E k \in 0..Min2(MaxSrc + 1, 8) : NextNth(k)
 Spec == Init /\ [][Next]_vars /\ WF_vars(Next)
 
 Exhausted == Remaining = 0
